@@ -79,7 +79,10 @@ def _hm_get(ctx, a, ty, c):
 @summary(r"^<HashMap<.*> as Default>::default$|^HashMap::<.*>::new$")
 def _hm_new(ctx, a, ty, c):
     targs = type_args(ty)
-    kb, vb = bits_of(targs[0]), bits_of(targs[1])
+    try:
+        kb, vb = bits_of(targs[0]), bits_of(targs[1])
+    except (Unsupported, IndexError):
+        return Obj("hashmap-opaque", ty, name="new")
     return Obj("hashmap", ty, name="new", kbits=kb, vbits=vb,
                vals=z3.K(z3.BitVecSort(kb), z3.BitVecVal(0, vb)), pres=z3.K(z3.BitVecSort(kb), z3.BoolVal(False)))
 
